@@ -251,7 +251,37 @@ def case_bounds(lines, n):
     return start, end
 
 
+CHUNK_LINES = 40000
+
+
 def validate_trace(run, spec, trace_path, kfs=None, label="", max_rejections=4):
+    """validates a trace file in chunks of whole cases (one TLC run per chunk keeps time and memory flat)"""
+    lines = open(trace_path).read().splitlines()
+    if len(lines) <= CHUNK_LINES:
+        return _validate_trace(run, spec, trace_path, kfs, label, max_rejections)
+    total = 0
+    chunk = []
+    n = 0
+    for l in lines:
+        chunk.append(l)
+        if '"e":"end"' in l and len(chunk) >= CHUNK_LINES:
+            p = f"{trace_path}.chunk{n}"
+            with open(p, "w") as f:
+                f.write("\n".join(chunk) + "\n")
+            total += _validate_trace(run, spec, p, kfs, f"{label}#{n}", max_rejections)
+            os.remove(p)
+            chunk = []
+            n += 1
+    if chunk:
+        p = f"{trace_path}.chunk{n}"
+        with open(p, "w") as f:
+            f.write("\n".join(chunk) + "\n")
+        total += _validate_trace(run, spec, p, kfs, f"{label}#{n}", max_rejections)
+        os.remove(p)
+    return total
+
+
+def _validate_trace(run, spec, trace_path, kfs=None, label="", max_rejections=4):
     """two-pass validation (fifo refinement first, any-order model for a rejected case);
     returns number of cases accepted"""
     t0 = time.time()
